@@ -181,17 +181,32 @@ def for_property(prop, res):
     return out
 
 
+def _own_cache():
+    """A worker of a parallel run keeps its own fact cache and target directory (no waiting for the others)."""
+    import tempfile
+    facts.CACHE = tempfile.mkdtemp(prefix="chiritori-selfcache-")
+
+
 def main():
     ap = argparse.ArgumentParser()
     ap.add_argument("--only")
     ap.add_argument("--property")
     ap.add_argument("--kind")
+    ap.add_argument("--jobs", type=int, default=1, help="evaluation only: split the corpus over this many processes")
     a = ap.parse_args()
     corpus = load_corpus()
     sel = [v for v in corpus
            if (not a.only or a.only in v["id"]) and (not a.property or v.get("property") == a.property or v.get("kind") == "benign")
            and (not a.kind or v.get("kind", "mutant") == a.kind)]
-    out = run_variants(sel)
+    if a.jobs > 1 and len(sel) > a.jobs:
+        import glob
+        import multiprocessing
+        with multiprocessing.Pool(a.jobs, initializer=_own_cache) as pool:
+            out = [r for rs in pool.map(run_variants, [sel[i::a.jobs] for i in range(a.jobs)]) for r in rs]
+        for d in glob.glob("/tmp/chiritori-selfcache-*"):
+            shutil.rmtree(d, ignore_errors=True)
+    else:
+        out = run_variants(sel)
     bad = [r for r in out if not r["ok"]]
     print("%d variants, %d failed" % (len(out), len(bad)))
     sys.exit(1 if bad else 0)
